@@ -1,5 +1,7 @@
 # coding: utf-8
 """C07 — assembly is pure: inputs are left untouched, even when it fails."""
+EXTRA_OBLIGATION_FILES = ("Props/C07_src.v",)
+
 import copy
 
 from harness import annot, common, gens
